@@ -94,6 +94,8 @@ pub struct Case {
 
 thread_local! {
     static TRACE: RefCell<Vec<(usize, u64, u16)>> = const { RefCell::new(Vec::new()) };
+    /// event limit that ends models with endless tasks (small under the interpreter)
+    static SAFETY_NET: std::cell::Cell<usize> = const { std::cell::Cell::new(20_000) };
 }
 
 struct El(#[allow(dead_code)] Tracked);
@@ -269,7 +271,7 @@ pub fn execute(case: &Case) -> Outcome {
         // a safety net against runaway models; hitting it is just another limit stop
         b = b.max_itr(match case.stop {
             Stop::MaxItr(n) => n,
-            _ => 20_000,
+            _ => SAFETY_NET.with(std::cell::Cell::get),
         });
         let mut rt = b.build(sim.freeze());
         match case.stop {
@@ -337,6 +339,11 @@ pub fn followup() -> (Vec<(usize, u64, u16)>, tracked::Summary) {
 pub type Finding = (&'static str, String);
 
 pub fn check(case: &Case, reference: &[(usize, u64, u16)]) -> (Vec<Finding>, Outcome, tracked::Summary) {
+    check_with(case, Some(reference))
+}
+
+/// `reference: None` skips the follow-up simulation (interpreter runs, where it dominates the cost)
+pub fn check_with(case: &Case, reference: Option<&[(usize, u64, u16)]>) -> (Vec<Finding>, Outcome, tracked::Summary) {
     let mut f = Vec::new();
     tracked::reset();
     let o = execute(case);
@@ -358,6 +365,12 @@ pub fn check(case: &Case, reference: &[(usize, u64, u16)]) -> (Vec<Finding>, Out
         ));
     }
     // a new simulation in the same process
+    let Some(reference) = reference else {
+        if des::verif::statics() != (false, 0, false) {
+            f.push(("statics-dirty", format!("statics after the drop: {:?} (context placed, buffered events, globals attached)", des::verif::statics())));
+        }
+        return (f, o, summary);
+    };
     let after = vcommon::catch(followup);
     match after {
         Err(p) => f.push(("followup-failed", format!("a simulation created after the drop panicked: {p}"))),
@@ -439,6 +452,9 @@ pub fn cmd(args: &Args) -> Report {
         rep.violation("C20/alive-after-drop", &format!("the reference simulation leaks in a fresh process: {}", ref_summary.describe()), json!({"driver": "desmon", "sub": "c20", "followup": true}));
     }
     let small_mode = args.extra.contains_key("small");
+    if small_mode {
+        SAFETY_NET.with(|s| s.set(120));
+    }
     let mut stop = false;
     for i in 0..cases {
         let small = small_mode || i % 4 == 0;
@@ -452,7 +468,8 @@ pub fn cmd(args: &Args) -> Report {
         };
         for case in variants {
             vcommon::mark_case(&format!("c20:{}:{}:{}", args.seed, args.shard, i));
-            let (findings, o, summary) = check(&case, &reference);
+            // interpreter runs: the follow-up simulation only after every fourth case
+            let (findings, o, summary) = if small_mode && i % 4 != 3 { check_with(&case, None) } else { check(&case, &reference) };
             rep.eval();
             rep.count("tokens_created", summary.created);
             rep.count("tokens_dropped_exactly_once", summary.dropped);
